@@ -21,6 +21,8 @@ def check(ctx: Ctx) -> None:
     # the member loop reads the register through its set interface
     from . import naming as _N
     _N.r_register_faithful(ctx, "R07.10")
+    # a member suspended inside one of the pool's own coroutines still receives its cancellation
+    K.r_no_swallow(ctx, "R07.11")
 
 
 
